@@ -37,7 +37,7 @@ ASSUMPTIONS = [
 ]
 MUST_REACH = {
     "enc_cases": 1, "dec_cases": 1, "dec_refused": 1, "dec_wrap_inputs": 1, "dec_trailing_zero_inputs": 1,
-    "enc_runs_over_255": 1, "header_peeks": 1, "dec_between_cap": 1,
+    "enc_runs_over_255": 1, "header_peeks": 1, "dec_between_cap": 1, "enc_repeat_after_mutation": 100,
 }
 
 
@@ -71,6 +71,24 @@ def check_encoder(ctx, s: bytes, tag):
             return
         if back != s:
             ctx.violation("roundtrip", "expand(compress(s)) != s", {"input": s, "output": c, "back": back, "tag": tag, "kind": "enc"})
+            return
+    # encoding is a function of the input alone: what a caller does to an earlier result (append a trailer, clear it,
+    # poke a byte) must not show up in a later encoding of the same bytes
+    if ctx.counters.get("enc_cases", 0) % 7 == 0:
+        try:
+            first = UDPMessageSerializer.zero_code_compress(s)
+            if isinstance(first, bytearray):
+                first += b"\x00\x00HV"
+                if len(first) > 4:
+                    first[0] ^= 0xFF
+            again = bytes(UDPMessageSerializer.zero_code_compress(s))
+            ctx.count("enc_repeat_after_mutation")
+            if again != c:
+                ctx.violation("encoder-depends-on-history", "encoding the same bytes again gave a different result after the caller "
+                              "modified an earlier result", {"input": s[:200], "first": c[:200], "again": again[:200], "tag": tag, "kind": "enc"})
+                return
+        except Exception as e:
+            ctx.violation("encoder-raises", "zero_code_compress raised on a byte string", {"input": s[:200], "exc": repr(e), "tag": tag, "kind": "enc"})
             return
     if c == wire.ref_zero_compress(s):
         ctx.count("enc_equal_to_maximal_run_reference")
